@@ -11,5 +11,6 @@ CONSTANTS
   Fuse = TRUE
   ExtChoice = "one"
   ReqChoice = "sched"
+  TrChoice = "direct"
 CONSTRAINT Export
 INVARIANTS TypeOK I1 I2
